@@ -330,6 +330,13 @@ fn run_seed(ctx: &RunCtx, tier: Tier) -> RunOut {
         ("lower-case w/", format!("w/\"{etag}\"")),
         ("empty weak tag", "W/\"\"".to_string()),
         ("double quoted", format!("\"\"{etag}\"\"")),
+        // nested and mixed quoting: only one layer (plain, "..." or W/"...") is an encoding
+        ("weak tag around a quoted payload", format!("W/\"\"{etag}\"\"")),
+        ("quoted weak tag", format!("\"W/\"{etag}\"\"")),
+        ("weak tag of a weak tag", format!("W/\"W/\"{etag}\"\"")),
+        ("doubly weak prefix", format!("W/W/\"{etag}\"")),
+        ("triple quoted", format!("\"\"\"{etag}\"\"\"")),
+        ("quote inside", format!("\"{sig_hex}\":\"{hash_hex}\"")),
         ("leading space", format!(" {etag}")),
         ("trailing space", format!("{etag} ")),
         ("0x prefix on hash", format!("{sig_hex}:0x{hash_hex}")),
